@@ -15,6 +15,7 @@ import (
 	"fmt"
 	"go/ast"
 	"go/parser"
+	"go/printer"
 	"go/token"
 	"os"
 	"path/filepath"
@@ -323,6 +324,120 @@ func (w *atpcWalker) function(name string, body *ast.BlockStmt, line int) {
 	}
 }
 
+// atpcWait is a place where the client waits for its wait group: `<x>.wg.Wait()` (unbounded) or a
+// call of waitWithTimeout (bounded).
+type atpcWait struct {
+	Fn    string
+	Call  string // wg.Wait | waitWithTimeout
+	Depth int    // number of enclosing if / for / switch / select bodies
+	Cond  string // condition of the innermost enclosing if statement ("" if none)
+	// Tail: the statement is the last one of the function body, or directly followed by its final return
+	Tail bool
+}
+
+func atpcExprString(fset *token.FileSet, e ast.Expr) string {
+	var b strings.Builder
+	_ = printer.Fprint(&b, fset, e)
+	return strings.Join(strings.Fields(b.String()), " ")
+}
+
+func atpcWaitCall(e ast.Expr) string {
+	c, ok := e.(*ast.CallExpr)
+	if !ok {
+		return ""
+	}
+	if id, ok := c.Fun.(*ast.Ident); ok && id.Name == "waitWithTimeout" {
+		return "waitWithTimeout"
+	}
+	if s, ok := c.Fun.(*ast.SelectorExpr); ok && s.Sel.Name == "Wait" {
+		if s2, ok := s.X.(*ast.SelectorExpr); ok && s2.Sel.Name == "wg" {
+			return "wg.Wait"
+		}
+		if id, ok := s.X.(*ast.Ident); ok && id.Name == "wg" {
+			return "wg.Wait"
+		}
+	}
+	return ""
+}
+
+// atpcWaitSites lists the wait sites of a function body (function literals are functions of their
+// own, named like the regions: fn$k in source order).
+func atpcWaitSites(fset *token.FileSet, name string, body *ast.BlockStmt, out *[]atpcWait) {
+	var lits []*ast.FuncLit
+	type frame struct{ cond string }
+	var walk func(list []ast.Stmt, depth int, cond string, top bool)
+	scanExpr := func(n ast.Node, depth int, cond string, tail bool) {
+		if n == nil {
+			return
+		}
+		ast.Inspect(n, func(x ast.Node) bool {
+			switch y := x.(type) {
+			case *ast.FuncLit:
+				lits = append(lits, y)
+				return false
+			case *ast.CallExpr:
+				if k := atpcWaitCall(y); k != "" {
+					*out = append(*out, atpcWait{Fn: name, Call: k, Depth: depth, Cond: cond, Tail: tail})
+				}
+			}
+			return true
+		})
+	}
+	walk = func(list []ast.Stmt, depth int, cond string, top bool) {
+		for i, st := range list {
+			tail := false
+			if top {
+				if i == len(list)-1 {
+					tail = true
+				} else if i == len(list)-2 {
+					_, tail = list[len(list)-1].(*ast.ReturnStmt)
+				}
+			}
+			switch s := st.(type) {
+			case *ast.IfStmt:
+				for cur := s; cur != nil; {
+					if cur.Init != nil {
+						scanExpr(cur.Init, depth, cond, false)
+					}
+					scanExpr(cur.Cond, depth, cond, false)
+					walk(cur.Body.List, depth+1, atpcExprString(fset, cur.Cond), false)
+					switch e := cur.Else.(type) {
+					case *ast.BlockStmt:
+						walk(e.List, depth+1, "else: "+atpcExprString(fset, cur.Cond), false)
+						cur = nil
+					case *ast.IfStmt:
+						cur = e
+					default:
+						cur = nil
+					}
+				}
+			case *ast.BlockStmt:
+				walk(s.List, depth, cond, false)
+			case *ast.ForStmt:
+				walk(s.Body.List, depth+1, cond, false)
+			case *ast.RangeStmt:
+				walk(s.Body.List, depth+1, cond, false)
+			case *ast.SwitchStmt:
+				for _, c := range s.Body.List {
+					walk(c.(*ast.CaseClause).Body, depth+1, cond, false)
+				}
+			case *ast.SelectStmt:
+				for _, c := range s.Body.List {
+					walk(c.(*ast.CommClause).Body, depth+1, cond, false)
+				}
+			case *ast.ExprStmt:
+				scanExpr(s.X, depth, cond, tail)
+			default:
+				scanExpr(st, depth, cond, false)
+			}
+		}
+	}
+	walk(body.List, 0, "", true)
+	for i, fl := range lits {
+		atpcWaitSites(fset, fmt.Sprintf("%s$%d", name, i+1), fl.Body, out)
+	}
+}
+
 func atpcKeys(m map[string]bool) []string {
 	var out []string
 	for k := range m {
@@ -383,6 +498,24 @@ func atpcFacts(a Args) {
 		fmt.Fprintf(&sb, "  { fn := %q, idx := %d, deferredUnlock := %v, reads := %s, writes := %s,\n    calls := %s, blocks := %s, spawns := %v, wgAdds := %d }",
 			r.Fn, r.Idx, r.Deferred, atpcLeanList(atpcKeys(r.Reads)), atpcLeanList(atpcKeys(r.Writes)),
 			atpcLeanList(atpcKeys(r.Calls)), atpcLeanList(atpcKeys(r.Blocks)), r.Spawns, r.WgAdd)
+	}
+	sb.WriteString("\n]\n\n")
+	var waits []atpcWait
+	for _, d := range f.Decls {
+		if fd, ok := d.(*ast.FuncDecl); ok && fd.Body != nil {
+			atpcWaitSites(fset, fd.Name.Name, fd.Body, &waits)
+		}
+	}
+	sb.WriteString("/-- Where the client waits for its wait group: `wg.Wait` (unbounded) or `waitWithTimeout` (bounded);\n")
+	sb.WriteString("    `depth`: enclosing if/for/switch/select bodies; `cond`: condition of the innermost enclosing `if`;\n")
+	sb.WriteString("    `tail`: last statement of the function, or directly followed by its final `return`. -/\n")
+	sb.WriteString("structure WaitSite where\n  fn : String\n  call : String\n  depth : Nat\n  cond : String\n  tail : Bool\nderiving DecidableEq, Repr\n\n")
+	sb.WriteString("def waitSites : List WaitSite := [\n")
+	for i, ws := range waits {
+		if i > 0 {
+			sb.WriteString(",\n")
+		}
+		fmt.Fprintf(&sb, "  { fn := %q, call := %q, depth := %d, cond := %q, tail := %v }", ws.Fn, ws.Call, ws.Depth, ws.Cond, ws.Tail)
 	}
 	sb.WriteString("\n]\n\n")
 	sb.WriteString("/-- methods of `*client` -/\ndef methods : List String := " + atpcLeanList(atpcKeys(w.methods)) + "\n\n")
